@@ -189,6 +189,13 @@ def xgenOf (j : Json) : XGen :=
     records := (jarr j "records").toList.map xrecordOf,
     refs := (jarr j "refs").toList.map fun r => { path := jostr r "path", c4 := jostr r "c4" } }
 
+open MhlModel.Xml in
+partial def elemOf (j : Json) : Elem :=
+  let attrs : List (String × String) := match (j.getObjVal? "attrs").toOption with
+    | some (.obj o) => o.toList.filterMap fun (k, v) => v.getStr?.toOption.map fun s => (k, s)
+    | _ => []
+  .mk (jstr j "tag") attrs (jostr j "text") ((jarr j "children").toList.map elemOf)
+
 def jopts (o : Option String) : Json := match o with | some s => Json.str s | none => Json.null
 
 open MhlModel.Xml in
@@ -341,7 +348,12 @@ def step (st : DState) (j : Json) : DState × Json :=
   | "xml" =>
     let g := xgenOf ((j.getObjVal? "gen").toOption.getD Json.null)
     let e := Xml.toXml g
-    (st, Json.mkObj [("tree", elemJ e), ("parsed", xgenJ (Xml.parse e)), ("norm", xgenJ (Xml.norm g))])
+    (st, Json.mkObj [("tree", elemJ e), ("parsed", xgenJ (Xml.parse e)), ("norm", xgenJ (Xml.norm g)),
+      ("valid", Xsd.validate Gen.manifestSchema e)])
+  | "xsd" =>
+    let e := elemOf ((j.getObjVal? "tree").toOption.getD Json.null)
+    let sch := if jstr j "schema" == "directory" then Gen.directorySchema else Gen.manifestSchema
+    (st, Json.mkObj [("valid", Xsd.validate sch e)])
   | "xmlchain" =>
     let cs : List Xml.XChainEntry := (jarr j "entries").toList.map fun c =>
       { seq := jostr c "seq", path := jostr c "path", fmt := jostr c "fmt", digest := jostr c "digest" }
